@@ -79,6 +79,35 @@ type nameCase struct {
 	Metric string `json:"metric"`
 	Value  int    `json:"value"`
 	Tag    string `json:"language_tag"`
+	// First: a tag for which names were requested before anything else in the process (what
+	// it returns is not asserted — most of these tags are left unspecified — but having
+	// served it must not change what later tags get)
+	First string `json:"tag_served_first_in_process,omitempty"`
+}
+
+// coldTags: tags a process may meet first: variants of en / ja (unspecified content), tags
+// without a language, private-use and grandfathered forms.
+var coldTags = []string{"ja-Latn", "ja-Hira", "ja-Kana", "ja-JP", "ja-u-ca-japanese", "ja-x-private", "en-US", "en-Dsrt", "en-u-nu-latn", "und-JP", "und-Jpan", "mul", "zxx", "i-klingon", "x-private", "art-x-foo", "fr-Latn-CA", "zh-Hant-TW"}
+
+var servedFirst = map[string]bool{}
+
+func serveFirst(tag string) {
+	if tag == "" || servedFirst[tag] {
+		return
+	}
+	servedFirst[tag] = true
+	tg := language.Make(tag)
+	for _, a := range nameAPIs {
+		a.title(tg)
+		if a.header != nil {
+			a.header(tg)
+		}
+		if a.valueOf != nil {
+			for v := int64(0); v <= int64(a.nvalues)+1; v++ {
+				a.valueOf(v, tg)
+			}
+		}
+	}
 }
 
 var checkC18 = register("C18/name", func(c nameCase) string {
@@ -86,6 +115,7 @@ var checkC18 = register("C18/name", func(c nameCase) string {
 	if a == nil {
 		return ""
 	}
+	serveFirst(c.First)
 	tag := language.Make(c.Tag)
 	base := rawBase(tag)
 	exactEn, exactJa := tag == language.English, tag == language.Japanese
@@ -211,6 +241,12 @@ func TestC18(t *testing.T) {
 	tags := fixedTags()
 	c.rec.F.Rule = fmt.Sprintf("complete box: all 26 title functions, 3 column-header functions and 23 value-name functions x every enumeration integer in [-8, max+8] x %d language tags (exact en, ja, und and tags built from 27 base languages x scripts x regions, private-use and grandfathered tags; tags whose language subtag is en or ja but which are not exactly en / ja are skipped as unspecified); rapid: full-range integers and composed tags. Oracle per point: non-empty English and Japanese names for titles and defined values, pairwise distinct value names per language, Modified value name == base value name for the same code (matched by code letter), out-of-range and zero values named Unknown / 未定義, any other language exactly the English string. Non-trivial = a point with a tag other than en/ja/und or a value outside the defined range; distinct by hash of (function, value, tag).", len(tags))
 	c.rec.F.Assumptions = []string{"the literals Unknown / 未定義 are the ones the repository's own name tests pin", "language subtag taken from Tag.Raw() (no inference from region or script)"}
+	// odd shards: one of the cold tags is served before anything else in the process
+	first := ""
+	if shard%2 == 1 {
+		first = coldTags[(shard/2+int(seed))%len(coldTags)]
+		c.rec.SetExtra("tag_served_first_in_process", first)
+	}
 	nviol := 0
 	i := 0
 	for _, a := range nameAPIs {
@@ -224,7 +260,7 @@ func TestC18(t *testing.T) {
 				if nviol > 0 || !mine(i) {
 					continue
 				}
-				cs := nameCase{Metric: a.metric, Value: v, Tag: tg}
+				cs := nameCase{Metric: a.metric, Value: v, Tag: tg, First: first}
 				nt := (tg != "en" && tg != "ja" && tg != "und") || v < 1 || v > a.nvalues
 				cl := "tag:other"
 				if tg == "en" || tg == "ja" || tg == "und" {
@@ -262,7 +298,7 @@ func TestC18(t *testing.T) {
 		case 2:
 			tg = rapid.StringMatching(`[a-z]{2,3}(-[A-Z]{2})?`).Draw(rt, "randomtag")
 		}
-		cs := nameCase{Metric: a.metric, Value: v, Tag: tg}
+		cs := nameCase{Metric: a.metric, Value: v, Tag: tg, First: first}
 		c.rec.Case("rapid", fmt.Sprintf("%s|%d|%s", a.metric, v, tg), (tg != "en" && tg != "ja") || v < 1 || v > a.nvalues)
 		evalCase(c, rt, "name", cs, checkC18)
 	})
